@@ -1,5 +1,6 @@
 (** C03 at the level of whole extensions: [from_sequence] is concatenation of per-position meta data
-    ([merge_den]), non-slice merges keep the agreed keys ([merge_nonslice]), totality and refusal. *)
+    ([merge_den]), non-slice merges keep the agreed keys ([merge_nonslice]), totality ([merge_total]) and
+    refusal ([merge_refuses]). *)
 From Coq Require Import List Bool Arith QArith Lia.
 From DV Require Import Common.Res Common.Str Ext.Types Ext.Classes Ext.Seq Ext.Model Ext.Spec Ext.TableFacts
      Ext.ValidFacts Ext.ProofsMergeSeq Ext.ProofsMergeDen Ext.ProofsMergeStep Ext.ProofsMergeFrame
@@ -134,6 +135,77 @@ Section WithV.
   Qed.
 End WithV.
 
+
+(** * Totality of [merge_hdr] *)
+
+Lemma pad_to_length n : forall l, length (pad_to n l) = Nat.max n (length l).
+Proof.
+  induction n as [|n IH]; intros l; [reflexivity|].
+  destruct l as [|x r]; cbn [pad_to length]; rewrite IH; cbn [length]; lia.
+Qed.
+
+Lemma set_nth_some {A} i (v : A) : forall l, i < length l -> exists l', set_nth i v l = Some l' /\ length l' = length l.
+Proof.
+  induction i as [|i IH]; intros [|x r] H; cbn [length] in H; try lia; cbn [set_nth].
+  - eexists; split; reflexivity.
+  - destruct (IH r ltac:(lia)) as [l' [-> Hl]]. cbn [option_map]. eexists; split; [reflexivity|]. cbn [length]. lia.
+Qed.
+
+Definition args_ok (a : option (list (list Q))) (sd : option nat) : Prop :=
+  match a with Some m => length m = 4 /\ Forall (fun row => length row = 4) m | None => True end /\
+  match sd with Some d => d < 3 | None => True end.
+
+Lemma merge_hdr_ok (hs : list hdr) h0 dim a sd :
+  hd_error hs = Some h0 -> 2 <= length hs -> hdr_wf h0 -> args_ok a sd ->
+  dim < 5 -> nth dim (shape h0) 1 = 1 ->
+  ~ (dim = 4 /\ length (shape h0) = 4 /\ nth 3 (shape h0) 1 = 1) ->
+  exists hfull, merge_hdr hs dim a sd = Ok hfull.
+Proof.
+  intros Hhd HN [Hnd [Hpos [Hsd0 [[Ha1 Ha2] Hb0]]]] [Haa Hsa] Hdim Hsing Hn1.
+  unfold merge_hdr. destruct (Nat.leb_spec 5 dim) as [E|_]; [lia|].
+  destruct hs as [|h hs']; [discriminate|]. cbn [hd_error] in Hhd. apply Some_inj in Hhd. subst h.
+  unfold ndim in Hnd.
+  replace ((dim <? length (shape h0)) && negb (nth dim (shape h0) 0 =? 1)) with false.
+  2:{ symmetry. destruct (Nat.ltb_spec dim (length (shape h0))) as [Hlt|Hge]; [|reflexivity].
+      rewrite (nth_indep _ 0 1 Hlt), Hsing. reflexivity. }
+  destruct (set_nth_some dim (length (h0 :: hs')) (pad_to (S dim) (shape h0))) as [osh [Eset Hlen]].
+  { rewrite pad_to_length. lia. }
+  rewrite Eset. rewrite pad_to_length in Hlen.
+  set (a' := match a with Some m => m | None => aff h0 end).
+  set (sd' := match sd with Some d => Some d | None => sdim h0 end).
+  assert (Hme : exists hfull, make_empty_hdr osh a' sd' = Ok hfull).
+  { unfold make_empty_hdr.
+    replace ((3 <=? length osh) && (length osh <? 6)) with true
+      by (symmetry; apply andb_true_iff; split; [apply Nat.leb_le | apply Nat.ltb_lt]; lia).
+    replace ((length a' =? 4) && forallb (fun r => length r =? 4) a') with true.
+    2:{ symmetry. assert (Hx : length a' = 4 /\ Forall (fun r => length r = 4) a')
+          by (subst a'; destruct a; [exact Haa | split; assumption]).
+        destruct Hx as [H1 H2]. apply andb_true_iff. split; [apply Nat.eqb_eq; exact H1|].
+        apply forallb_forall. intros r Hr. apply Nat.eqb_eq. rewrite Forall_forall in H2. auto. }
+    replace (match sd' with None => true | Some d => d <? 3 end) with true.
+    2:{ symmetry. subst sd'. destruct sd as [d|]; [apply Nat.ltb_lt; exact Hsa|].
+        destruct (sdim h0) as [d|] eqn:E; [apply Nat.ltb_lt; auto | reflexivity]. }
+    cbn [negb]. eauto. }
+  destruct Hme as [hfull Hme]. rewrite Hme. cbn [bind].
+  replace (ndim_ok h0) with true
+    by (symmetry; unfold ndim_ok, ndim; apply andb_true_iff; split; [apply Nat.leb_le | apply Nat.ltb_lt]; lia).
+  cbn [negb].
+  (* the frame, to move class validity from the input shape to the output shape *)
+  destruct (make_empty_hdr_inv _ _ _ _ Hme) as [Hn [Haff [Hsd Ehf]]].
+  pose proof (make_empty_hdr_bases _ _ _ _ Hme) as Hbases.
+  assert (F : frame hfull (shape h0) dim (length (h0 :: hs'))).
+  { constructor; try assumption.
+    - rewrite Ehf. cbn [shape]. exact Eset.
+    - intros d Hd. apply Hsd. rewrite Ehf in Hd. exact Hd. }
+  set (ho := mk_hdr (shape h0) (sdim hfull) (aff hfull) false false).
+  assert (Hin : inp hfull (shape h0) ho) by (split; reflexivity).
+  destruct (frame_generic hfull (shape h0) dim _ ho (length (h0 :: hs')) F Hin ltac:(lia)) as [_ [_ [_ [_ [Hmono _]]]]].
+  rewrite (with_dim_full _ _ _ _ F) in Hmono.
+  replace (forallb _ (valid_classes h0)) with true; [eauto|].
+  symmetry. apply forallb_forall. intros c Hc. apply orb_true_iff. right.
+  rewrite Hbases. apply Hmono. cbn [shape]. rewrite <- class_valid_ok. unfold class_valid. apply mem_cls_In. exact Hc.
+Qed.
+
 (** * Whole extensions *)
 
 Definition trailing1b (sh : list nat) : bool := (3 <? length sh) && (last sh 0 =? 1).
@@ -263,5 +335,172 @@ Section Merge.
         rewrite (D p Hp). rewrite (ins_of_nth es e0 k _ hfull Hlt). reflexivity.
       + assert (El : lookup_e r k = None) by (rewrite Er; apply Habs; exact Hkout). rewrite El.
         rewrite (key_absent es k Hkout _ (nth_In es e0 Hlt)). reflexivity.
+  Qed.
+
+  (** the same facts from [merge_hdr = Ok] alone (used for totality) *)
+  Lemma merge_setup_hdr es e0 dim a sd hfull :
+    inputs_ok es e0 sd -> merge_hdr (map (@hdr_of V) es) dim a sd = Ok hfull ->
+    frame hfull (shape (hdr_of e0)) dim (length es) /\ hdr_wf hfull /\
+    sdim hfull = out_sdim sd e0 /\
+    forall k, Forall (inp_ok hfull (shape (hdr_of e0))) (ins_of es k) /\ length (ins_of es k) = length es.
+  Proof.
+    intros [Hhd [HN Hall]] Hm.
+    assert (Hhd' : hd_error (map (@hdr_of V) es) = Some (hdr_of e0)) by (destruct es; [discriminate | cbn in *; congruence]).
+    destruct (Hall e0 (e0_in _ _ Hhd)) as [[[_ [Hpos _]] _] _].
+    destruct (merge_hdr_frame _ _ dim a sd hfull Hhd' ltac:(rewrite map_length; exact HN) Hpos Hm) as [F [Hwf [Hsd Haff]]].
+    rewrite map_length in F.
+    split; [exact F|]. split; [exact Hwf|]. split; [exact Hsd|].
+    intros k. split; [|unfold ins_of; apply map_length].
+    unfold ins_of. apply Forall_forall. intros i Hi. apply in_map_iff in Hi as [x [<- Hx]].
+    destruct (Hall x Hx) as [Hv [Hsh Hsdx]]. split; cbn [fst snd].
+    - split; [exact Hsh | rewrite Hsdx, Hsd; reflexivity].
+    - apply valid_good_k. exact Hv.
+  Qed.
+
+  (** THEOREM 4: merging along a non-slice spatial axis keeps exactly the keys on which all inputs agree *)
+  Theorem merge_nonslice es e0 dim a sd r :
+    inputs_ok es e0 sd ->
+    from_sequence veqb vnone es dim a sd = Ok r ->
+    dim < 3 -> out_sdim sd e0 <> Some dim ->
+    trailing1b (shape (hdr_of r)) = false ->
+    set_nth dim (length es) (pad_to (S dim) (shape (hdr_of e0))) = Some (shape (hdr_of r)) /\
+    sdim (hdr_of r) = out_sdim sd e0 /\
+    aff (hdr_of r) = (match a with Some m => m | None => aff (hdr_of e0) end) /\
+    valid r /\ dims (hdr_of r) = dims (hdr_of e0) /\
+    forall k,
+      ((forall x p, In x es -> in_dims (dims (hdr_of r)) p -> den_in (hdr_of r) x k p = den_in (hdr_of r) e0 k p) ->
+       forall p, in_dims (dims (hdr_of r)) p -> den vnone r k p = den_in (hdr_of r) e0 k p) /\
+      ((exists x p, In x es /\ in_dims (dims (hdr_of r)) p /\ den_in (hdr_of r) x k p <> den_in (hdr_of r) e0 k p) ->
+       forall p, in_dims (dims (hdr_of r)) p -> den vnone r k p = vnone).
+  Proof.
+    intros Hin H Hd3 Hns Htr.
+    destruct (merge_setup es e0 dim a sd r Hin H) as [ents [Er [F [Hwf [Hsd [Haff [Hmk Hins]]]]]]].
+    destruct Hin as [Hhd [HN Hall]].
+    set (hfull := hdr_of r) in *. set (ish := shape (hdr_of e0)) in *.
+    rewrite <- Hsd in Hns.
+    pose proof (n4_free_of_trailing hfull (hdr_wf_ok _ Hwf) Htr) as Hn4.
+    assert (Hhd' : forall k, hd_error (ins_of es k) = Some (hdr_of e0, lookup_e e0 k))
+      by (intros k; destruct es; [discriminate | cbn in *; congruence]).
+    assert (Hk : forall k, exists ks, merge_k veqb vnone hfull dim (ins_of es k) = Ok ks /\ good_k hfull ks /\
+      ((Forall (fun i => forall p, in_dims (d_in hfull ish) p ->
+                  den_ink vnone hfull i p = den_ink vnone hfull (hdr_of e0, lookup_e e0 k) p) (ins_of es k) /\
+        forall p, in_dims (d_in hfull ish) p -> den_k hfull ks p = den_ink vnone hfull (hdr_of e0, lookup_e e0 k) p) \/
+       (Exists (fun i => ~ forall p, in_dims (d_in hfull ish) p ->
+                  den_ink vnone hfull i p = den_ink vnone hfull (hdr_of e0, lookup_e e0 k) p) (ins_of es k) /\
+        forall p, in_dims (d_in hfull ish) p -> den_k hfull ks p = vnone))).
+    { intros k. destruct (Hins k) as [Hf Hl].
+      apply (merge_k_nonslice veqb vnone veqb_spec hfull ish dim (length es)); auto. }
+    destruct (map_keys_spec _ _ _ Hmk (proj1 (dedup_keys_spec _ []))) as [Hnd [Hents [Hpres Habs]]].
+    assert (Hdf : dims hfull = d_in hfull ish).
+    { set (ho := mk_hdr ish (sdim hfull) (aff hfull) false false).
+      assert (Hinp : inp hfull ish ho) by (split; reflexivity).
+      destruct (frame_nonslice hfull ish dim _ ho (length es) F Hinp Hd3 Hns ltac:(lia)) as [Hd _].
+      rewrite (with_dim_full hfull ish dim _ F) in Hd. rewrite Hd. reflexivity. }
+    assert (Hd0 : dims (hdr_of e0) = d_in hfull ish).
+    { destruct (Hall e0 (e0_in _ _ Hhd)) as [_ [_ Hs0]]. unfold dims, d_in, in_S. fold ish. rewrite Hs0, Hsd. reflexivity. }
+    split; [exact (fr_shape _ _ _ _ F)|]. split; [exact Hsd|]. split; [exact Haff|]. split; [|split; [congruence|]].
+    - rewrite Er. split; [exact Hwf|]. split; [exact Hnd|]. cbn [entries hdr_of].
+      intros k c vs Hkin. destruct (Hents _ _ Hkin) as [_ Hf]. destruct (Hk k) as [ks [E [G _]]].
+      rewrite E in Hf. apply Ok_inj in Hf. subst ks. exact G.
+    - intros k. rewrite Hdf.
+      (* the denotation of the result for this key *)
+      assert (Hden : exists ks, (forall p, den vnone r k p = den_k hfull ks p) /\
+        ((Forall (fun i => forall p, in_dims (d_in hfull ish) p ->
+                    den_ink vnone hfull i p = den_ink vnone hfull (hdr_of e0, lookup_e e0 k) p) (ins_of es k) /\
+          forall p, in_dims (d_in hfull ish) p -> den_k hfull ks p = den_ink vnone hfull (hdr_of e0, lookup_e e0 k) p) \/
+         (Exists (fun i => ~ forall p, in_dims (d_in hfull ish) p ->
+                    den_ink vnone hfull i p = den_ink vnone hfull (hdr_of e0, lookup_e e0 k) p) (ins_of es k) /\
+          forall p, in_dims (d_in hfull ish) p -> den_k hfull ks p = vnone))).
+      { destruct (in_dec (fun a b => match str_eqb_spec a b with ReflectT _ e => left e | ReflectF _ n => right n end)
+                         k (dedup_keys [] (flat_map (@keys_e V) es))) as [Hkin|Hkout].
+        - destruct (Hpres k Hkin) as [s [Hf Ha]]. destruct (Hk k) as [ks [E [_ C]]].
+          rewrite E in Hf. apply Ok_inj in Hf. subst s. exists ks. split; [|exact C].
+          intros p. rewrite den_den_k. fold hfull. rewrite Er. unfold lookup_e. cbn [entries]. rewrite Ha. reflexivity.
+        - exists None. split.
+          + intros p. rewrite den_den_k. rewrite Er. unfold lookup_e. cbn [entries]. rewrite (Habs k Hkout). reflexivity.
+          + left. split; [|].
+            * apply Forall_forall. intros i Hi. unfold ins_of in Hi. apply in_map_iff in Hi as [x [<- Hx]].
+              intros p _. unfold den_ink. cbn [fst snd].
+              rewrite (key_absent es k Hkout x Hx), (key_absent es k Hkout e0 (e0_in _ _ Hhd)). reflexivity.
+            * intros p _. unfold den_ink. cbn [fst snd den_k].
+              rewrite (key_absent es k Hkout e0 (e0_in _ _ Hhd)). reflexivity. }
+      destruct Hden as [ks [Hr C]]. unfold den_in.
+      split.
+      + intros Hag p Hp. rewrite Hr. destruct C as [[_ D]|[He _]]; [apply D; exact Hp|].
+        exfalso. apply Exists_exists in He as [i [Hi Hni]]. unfold ins_of in Hi. apply in_map_iff in Hi as [x [<- Hx]].
+        apply Hni. intros q Hq. apply (Hag x q Hx Hq).
+      + intros [x [q [Hx [Hq Hne]]]] p Hp. rewrite Hr. destruct C as [[Hf _]|[_ D]]; [|apply D; exact Hp].
+        exfalso. apply Hne. rewrite Forall_forall in Hf.
+        apply (Hf (hdr_of x, lookup_e x k)); [|exact Hq]. unfold ins_of.
+        apply (in_map (fun e => (hdr_of e, lookup_e e k))). exact Hx.
+  Qed.
+
+  (** THEOREM 5a: on the domain [from_sequence] never fails *)
+  Theorem merge_total es e0 dim a sd :
+    inputs_ok es e0 sd -> args_ok a sd ->
+    dim < 5 -> nth dim (shape (hdr_of e0)) 1 = 1 ->
+    ~ (dim = 4 /\ length (shape (hdr_of e0)) = 4 /\ nth 3 (shape (hdr_of e0)) 1 = 1) ->                 (* N1 *)
+    (3 <= dim -> out_sdim sd e0 <> None) ->                                                            (* N3 *)
+    (forall sh, set_nth dim (length es) (pad_to (S dim) (shape (hdr_of e0))) = Some sh -> trailing1b sh = false) -> (* N4 *)
+    exists r, from_sequence veqb vnone es dim a sd = Ok r.
+  Proof.
+    intros Hin Hargs Hdim Hsing Hn1 Hn3 Hn4.
+    pose proof Hin as [Hhd [HN Hall]].
+    assert (Hhd' : hd_error (map (@hdr_of V) es) = Some (hdr_of e0)) by (destruct es; [discriminate | cbn in *; congruence]).
+    destruct (Hall e0 (e0_in _ _ Hhd)) as [[Hwf0 _] _].
+    destruct (merge_hdr_ok _ _ dim a sd Hhd' ltac:(rewrite map_length; exact HN) Hwf0 Hargs Hdim Hsing Hn1) as [hfull Hm].
+    destruct (merge_setup_hdr es e0 dim a sd hfull Hin Hm) as [F [Hwf [Hsd Hins]]].
+    set (ish := shape (hdr_of e0)) in *.
+    pose proof (n4_free_of_trailing hfull (hdr_wf_ok _ Hwf) (Hn4 _ (fr_shape _ _ _ _ F))) as Hn4'.
+    rewrite <- Hsd in Hn3.
+    assert (Hk : forall k, exists ks, merge_k veqb vnone hfull dim (ins_of es k) = Ok ks).
+    { intros k. destruct (Hins k) as [Hf Hl].
+      destruct (axis_of (sdim hfull) dim) as [ax|] eqn:Eax.
+      - destruct (merge_k_den veqb vnone veqb_spec hfull ish dim (length es) ax (ins_of es k) F Eax Hn3 Hn4' Hl Hf)
+          as [ks [E _]]. eauto.
+      - assert (Hd3 : dim < 3 /\ sdim hfull <> Some dim).
+        { unfold axis_of in Eax. destruct (odim_is (sdim hfull) dim) eqn:Eo; [discriminate|].
+          destruct (Nat.eqb_spec dim 3); [discriminate|]. destruct (Nat.eqb_spec dim 4); [discriminate|].
+          split; [lia|]. intros Hs. rewrite Hs in Eo. unfold odim_is in Eo. rewrite Nat.eqb_refl in Eo. discriminate. }
+        destruct Hd3 as [Hd3 Hns].
+        assert (Hhk : hd_error (ins_of es k) = Some (hdr_of e0, lookup_e e0 k))
+          by (destruct es; [discriminate | cbn in *; congruence]).
+        destruct (merge_k_nonslice veqb vnone veqb_spec hfull ish dim (length es) (ins_of es k) _ F Hd3 Hns Hn4' Hl Hf Hhk)
+          as [ks [E _]]. eauto. }
+    destruct (map_keys_ok (fun k => merge_k veqb vnone hfull dim (ins_of es k))
+                (dedup_keys [] (flat_map (@keys_e V) es)) (fun k _ => Hk k)) as [ents He].
+    exists (mk_ext hfull ents). unfold from_sequence. rewrite Hm. cbn [bind].
+    unfold ins_of in He. rewrite He. reflexivity.
+  Qed.
+
+  (** THEOREM 5b: [from_sequence] refuses (ValueError) exactly a non-singular merge axis or [dim >= 5] *)
+  Lemma merge_refuses_if es (e0 : ext V) dim a sd :
+    hd_error es = Some e0 -> (5 <= dim \/ nth dim (shape (hdr_of e0)) 1 <> 1) ->
+    from_sequence veqb vnone es dim a sd = Err EValue.
+  Proof.
+    intros Hhd Hc. unfold from_sequence, merge_hdr.
+    destruct (Nat.leb_spec 5 dim) as [E|E]; [reflexivity|].
+    destruct Hc as [Hc|Hc]; [lia|].
+    destruct es as [|x r]; [discriminate|]. cbn [hd_error] in Hhd. apply Some_inj in Hhd. subst x.
+    cbn [map].
+    replace ((dim <? length (shape (hdr_of e0))) && negb (nth dim (shape (hdr_of e0)) 0 =? 1)) with true; [reflexivity|].
+    symmetry. destruct (Nat.ltb_spec dim (length (shape (hdr_of e0)))) as [Hlt|Hge].
+    - rewrite (nth_indep _ 0 1 Hlt). destruct (Nat.eqb_spec (nth dim (shape (hdr_of e0)) 1) 1); [contradiction | reflexivity].
+    - exfalso. apply Hc. apply nth_overflow. exact Hge.
+  Qed.
+
+  Theorem merge_refuses es e0 dim a sd :
+    inputs_ok es e0 sd -> args_ok a sd ->
+    ~ (dim = 4 /\ length (shape (hdr_of e0)) = 4 /\ nth 3 (shape (hdr_of e0)) 1 = 1) ->
+    (3 <= dim -> out_sdim sd e0 <> None) ->
+    (forall sh, set_nth dim (length es) (pad_to (S dim) (shape (hdr_of e0))) = Some sh -> trailing1b sh = false) ->
+    (from_sequence veqb vnone es dim a sd = Err EValue <->
+     (5 <= dim \/ nth dim (shape (hdr_of e0)) 1 <> 1)).
+  Proof.
+    intros Hin Hargs Hn1 Hn3 Hn4. split.
+    - intros He. destruct (Nat.le_gt_cases 5 dim) as [H5|H5]; [left; exact H5|].
+      destruct (Nat.eq_dec (nth dim (shape (hdr_of e0)) 1) 1) as [Hs|Hs]; [|right; exact Hs].
+      destruct (merge_total es e0 dim a sd Hin Hargs H5 Hs Hn1 Hn3 Hn4) as [r Hr]. congruence.
+    - apply merge_refuses_if. destruct Hin as [H _]. exact H.
   Qed.
 End Merge.
